@@ -132,18 +132,48 @@ def run_driver(lines, drv='awkdrv', san=False, per_case_timeout=10.0, env_extra=
 
 
 def run_model(lines):
-    """lines for modelrun; returns dict id -> verdict text (after the id)"""
+    """lines for modelrun; returns dict id -> verdict text (after the id).  modelrun answers line by line (flushed); if
+    it stops answering (an implementation result whose value cannot be read in finite time, e.g. garbage offsets spanning
+    2^40 items) the line it was working on is given the verdict 'viol unreadable ...' and the run resumes after it"""
     exe = os.path.join(ML, 'modelrun')
     env = dict(os.environ)
-    p = subprocess.run('ulimit -s unlimited 2>/dev/null; exec ' + exe, shell=True, input='\n'.join(lines) + '\n',
-                       stdout=subprocess.PIPE, stderr=subprocess.PIPE, text=True, timeout=3600, env=env)
     out = {}
-    for ol in p.stdout.splitlines():
-        m = LINE_ID.match(ol)
-        if m:
-            out[m.group(1)] = ol[len(m.group(1)) + 2:-1]
-    if p.returncode != 0:
-        raise RuntimeError('modelrun failed rc=%s: %s' % (p.returncode, p.stderr[-2000:]))
+    rest = list(lines)
+    stuck = 0
+    while rest:
+        budget = 60 + 0.005 * len(rest)
+        try:
+            p = subprocess.run('ulimit -s unlimited 2>/dev/null; exec ' + exe, shell=True, input='\n'.join(rest) + '\n',
+                               stdout=subprocess.PIPE, stderr=subprocess.PIPE, text=True, timeout=budget, env=env)
+            stdout, rc, timed_out, err = p.stdout, p.returncode, False, p.stderr
+        except subprocess.TimeoutExpired as e:
+            stdout = e.stdout.decode('utf-8', 'replace') if isinstance(e.stdout, bytes) else (e.stdout or '')
+            rc, timed_out, err = None, True, ''
+        got = 0
+        for ol in stdout.splitlines():
+            m = LINE_ID.match(ol)
+            if m:
+                out[m.group(1)] = ol[len(m.group(1)) + 2:-1]
+                got += 1
+        if not timed_out:
+            if rc != 0:
+                raise RuntimeError('modelrun failed rc=%s: %s' % (rc, err[-2000:]))
+            break
+        # the first line without an answer is the one modelrun was stuck on
+        k = 0
+        while k < len(rest) and LINE_ID.match(rest[k]).group(1) in out:
+            k += 1
+        if k >= len(rest):
+            break
+        cid = LINE_ID.match(rest[k]).group(1)
+        stuck += 1
+        out[cid] = ('viol unreadable (the value of the implementation\'s result could not be computed within %d s: '
+                    'not a readable array)' % int(budget))
+        rest = rest[k + 1:]
+        if stuck >= 6:
+            for l in rest:
+                out[LINE_ID.match(l).group(1)] = 'bad (modelrun stopped answering repeatedly)'
+            break
     return out
 
 
